@@ -1037,12 +1037,12 @@ impl<'a> Compiler<'a> {
 }
 
 fn super_depth(import: &str) -> (usize, Option<&str>) {
-    let mut super_pog = import.split_once("super.");
+    let mut super_pog = import.strip_prefix("super.");
     let mut super_cnt = 0;
     let mut suffix = None;
-    while let Some((_sup_pre, sup_post)) = super_pog {
+    while let Some(sup_post) = super_pog {
         super_cnt += 1;
-        super_pog = sup_post.split_once("super.");
+        super_pog = sup_post.strip_prefix("super.");
         suffix = Some(sup_post);
     }
 
